@@ -126,13 +126,14 @@ namespace sim
       }
    }  // namespace
 
-   std::uint32_t register_rule( std::string_view name, bool enable )
+   std::uint32_t register_rule( std::string_view name, bool enable, int sel )
    {
       Suspend sp;
       RuleInfo ri;
       ri.name = std::string( name );
       ri.namehash = fnv1a( name.data(), name.size() );
       ri.enable = enable;
+      ri.sel = sel;
       parse_name( ri );
       if( g_rules.empty() ) {
          g_rules.emplace_back();  // index 0 = "no rule"
